@@ -9,3 +9,8 @@ import Tx3Proofs.C11Roundtrip
 #print axioms Tx3.Wire.C11_expr_roundtrip
 #print axioms Tx3.Wire.C11_expr_injective
 #print axioms Tx3.Wire.C11_tx_roundtrip
+#print axioms Tx3.Cbor.readItem_encode
+#print axioms Tx3.Cbor.decode_encode
+#print axioms Tx3.Cbor.wfb_all
+#print axioms Tx3.Wire.C11_wire_roundtrip
+#print axioms Tx3.Wire.C11_bytes_injective
